@@ -49,6 +49,7 @@ def mk_family(name, sub, gen, judge_fn=None, split=None):
             return "two processes disagree: %r vs %r" % (impl[:200], other[:200])
         return judge_fn(case, impl, spec) if judge_fn else None
     fam.prop_judge = judge
+    if split is split_noccorr: fam.no_model = True       # process-to-process equality only: the model's output is not used
     return fam
 
 def gen_solve(tier, rng):
@@ -102,17 +103,17 @@ def gen_propf(tier, rng):
     from . import c06
     f = [x for x in c06.FAMILIES if x.name == "fprop_exact"][0]
     cs = f.gen(tier, random.Random(rng.random()))
-    return cs[: (1500 if tier == "quick" else 60000)]
+    return cs[: (1500 if tier == "quick" else 12000)]
 def gen_searchf(tier, rng):
     from . import c06
     f = [x for x in c06.FAMILIES if x.name == "fsearch_exact"][0]
     cs = f.gen(tier, random.Random(rng.random()))
-    return cs[: (100 if tier == "quick" else 6000)]
+    return cs[: (100 if tier == "quick" else 800)]
 def gen_solvef(tier, rng):
     from . import c06
     f = [x for x in c06.FAMILIES if x.name == "fsolve_random"][0]
     cs = f.gen(tier, random.Random(rng.random()))
-    return cs[: (300 if tier == "quick" else 20000)]
+    return cs[: (300 if tier == "quick" else 3000)]
 
 def gen_float_order(tier, rng):
     """float models whose fixpoint depends on the ORDER in which the dependants of one prune call are woken: an equality that
